@@ -1,21 +1,21 @@
 ------------------------------- MODULE MC_C12 -------------------------------
 EXTENDS C12_Approx
 
-SizesQuick    == {<<2, 3>>, <<3, 2>>, <<3, 3>>, <<4, 2>>}
+SizesQuick    == {<<2, 3>>, <<3, 3>>, <<4, 2>>}
 SizesThorough == {<<2, 2>>, <<2, 3>>, <<3, 2>>, <<3, 3>>, <<4, 2>>, <<2, 4>>, <<3, 4>>, <<4, 3>>}
 SizesTiny     == {<<3, 3>>, <<4, 2>>}
 
 SeqsQuick ==
-  {<<"xmin">>, <<"xmax">>, <<"ymin">>, <<"ymax">>, <<"xmin", "xmax">>, <<"ymax", "ymin">>,
-   <<"xmin", "xmax", "ymin", "ymax">>, <<"ymax", "ymin", "xmax", "xmin">>}
+  {<<"xmin">>, <<"ymax">>, <<"xmin", "xmax">>, <<"ymax", "ymin">>, <<"xmin", "xmax", "ymin", "ymax">>}
 SeqsThorough ==
-  SeqsQuick \cup {<<"xmax", "xmin">>, <<"ymin", "ymax">>, <<"ymin", "xmin">>, <<"xmax", "ymax">>, <<"xmin", "ymax">>,
+  SeqsQuick \cup {<<"xmax">>, <<"ymin">>, <<"ymax", "ymin", "xmax", "xmin">>,
+                  <<"xmax", "xmin">>, <<"ymin", "ymax">>, <<"ymin", "xmin">>, <<"xmax", "ymax">>, <<"xmin", "ymax">>,
                   <<"ymin", "xmax", "xmin">>, <<"ymin", "ymax", "xmin", "xmax">>}
 SeqsTiny == {<<"xmin">>, <<"ymax">>, <<"xmin", "xmax", "ymin", "ymax">>}
 
 ModesAll == {"late", "early", "via1d", "proj", "fullbond"}
 LayAll   == {"flat", "all", "kb", "bk"}
 TasksAll == {"contract", "around", "envs"}
-CapsQuick    == {1, 2, 4, 16}
+CapsQuick    == {1, 4, 16}
 CapsThorough == {1, 2, 3, 4, 8, 9, 16, 64, 729}
 =============================================================================
